@@ -114,6 +114,9 @@ func TTLScenarios(mk func() *Env, each func(e *Env), fileDir string) int {
 		{"c0", []IndexSpec{{Key: d("c", int32(1)), Expire: 0}}},
 		{"c10-e86400", []IndexSpec{{Key: d("c", int32(1)), Expire: 10}, {Key: d("e", int32(-1)), Expire: 86400}, {Key: d("a", int32(1), "b", int32(1)), Expire: -1}}},
 		{"partial-ttl", []IndexSpec{{Key: d("c", int32(1)), Expire: 3600, Partial: d("a", d("$gte", int32(0))), Name: "pc"}}},
+		// a partial index next to the TTL index: expired documents inside and outside its filter are removed alike
+		{"c3600-beside-partial", []IndexSpec{{Key: d("c", int32(1)), Expire: 3600}, {Key: d("a", int32(1), "_id", int32(1)), Unique: true, Partial: d("a", d("$gte", int32(4))), Name: "pa2", Expire: -1},
+			{Key: d("zz", int32(1)), Partial: d("zz", d("$exists", true)), Name: "pz", Expire: -1}}},
 	}
 	for _, set := range sets {
 		for round := 0; round < 2; round++ {
